@@ -75,6 +75,9 @@ def core_definitions():
     ds.append(("same_name_same_type", ["clone"], [A("score", "P4"), A("label", "Str"), A("rank", "P8", True), C(),
                                                   R("score"), A("score", "P4"), R("label"), A("label", "Str"), C(),
                                                   R("rank"), A("rank", "P8", True), R("label"), A("label", "Str"), C("basic")]))
+    # zero-size data at the END of the declaration order (and a variant of zero-size data only)
+    ds.append(("zst_tail", ["clone", "serde"], [A("id", "P4"), A("name", "Str"), A("marker", "Zst"), C(), A("tail2", "ZstDrop"), C(),
+                                                R("id"), R("name"), C()]))
     # a zero-size datum is the most-aligned field of the definition (alignment marker)
     ds.append(("zst_overalign", ["clone"], [A("a", "P4"), A("b", "P2"), A("c", "Odd3"), C(), R("a"), A("marker", "ZstA8"), C(),
                                             A("t", "TrackedOdd"), C("basic")]))
